@@ -19,14 +19,14 @@ CHECKS = {
          "Frame length is recomputed from the decoded final output for framed outputs of many shapes, including outputs rewritten by the type-confusion mutator.", "3 C06"),
  "C07": ("repeat-and-compare (metamorphic: same input => same bytes) across instances, 16 concurrent threads, fresh processes (different working directories and environments) and CLI batch worker counts",
          "Digest equality across execution contexts; interleavings are sampled by stress, not enumerated.", "3 C07"),
- "C08": ("model-based stateful testing: generated call sequences (incl. re-configuration, very large first pickles, histories of up to 70 000 calls) on one generator vs a fresh generator per call",
+ "C08": ("model-based stateful testing: generated call sequences (incl. re-configuration of the range and protocol fields, very large first pickles, histories of up to 70 000 calls) on one generator vs a fresh generator per call",
          "Sequences of generate / generate_from_arbitrary / reset of length 1..8; every call's result must equal a fresh generator's.", "3 C08"),
  "C09": ("generated-input search + exhaustive enumeration of all byte strings of length <= 2 + staged search over scripted repeated-word programs (towers) scaled to thousands of repetitions, in child processes with 2 MiB stacks, optimised and unoptimised builds",
          "Ok + non-empty, no panic/abort/stack overflow, emission fuel never exhausted; silent spins would only be reported as inconclusive.", "3 C09"),
  "C10": ("generated-input search over the four flag combinations incl. unsafe mode; oracle: decoded opcode histogram",
          "No EXT*/buffer opcode in any explored output unless its flag is set.", "3 C10"),
- "C11": ("generated-input search over all (min,max) shapes; oracle: trace-hook counters + per-emission decoding",
-         "T in range, exactly T single-opcode body emissions, tail <= 2T+1, decoded count bounds.", "3 C11"),
+ "C11": ("generated-input search over all (min,max) shapes, plus a target probe over ranges of 2^16..2^63 opcodes (generation started under a 24-emission budget, T read from the trace hook); oracle: trace-hook counters + per-emission decoding",
+         "T in range (also for ranges wider than 65 535, where only the draw of T is observed), exactly T single-opcode body emissions, tail <= 2T+1, decoded count bounds.", "3 C11"),
  "C12": ("existential search over a fixed large seed range per protocol; oracle: union of decoded opcode sets vs independent vocabulary table",
          "Every vocabulary opcode must be witnessed (witness seeds recorded); misses are violations because >= 25 witnesses are expected for the rarest opcode.", "3 C12"),
  "C13": ("differential testing of the built CLI binary, action wrapper and Python extension module against the library under an independently written option mapping",
